@@ -634,7 +634,9 @@ class Interp:
                 if isinstance(pa, str):
                     res = any(isinstance(self.plain(x), str) and self.plain(x) == pa for x in items)
                     return res if op == 'in' else not res
-                raise Unsupported('membership of a composite abstract string', node)
+                # a composite abstract string against each candidate (same rules as ==)
+                res = any(isinstance(x, (str, SegStr)) and self.compare('==', a, x, node) for x in items)
+                return res if op == 'in' else not res
             if op in ('in', 'not in') and isinstance(a, str) and a not in self.sym_strings:
                 r = self.seg(b).contains(a)
                 if r is None:
@@ -658,7 +660,7 @@ class Interp:
             if isinstance(b, (ListV,)):
                 items = b.items
             elif isinstance(b, DictV):
-                items = list(b.d.keys())
+                items = [b.okey(k) for k in b.d.keys()]
             elif isinstance(b, str) and isinstance(a, str):
                 res = a in b
                 return res if op == 'in' else not res
@@ -669,6 +671,15 @@ class Interp:
                 return res if op == 'in' else not res
             if isinstance(a, Obj):
                 res = any(x is a for x in items)       # identity (object equality is not modelled)
+                return res if op == 'in' else not res
+            if isinstance(a, Rat):
+                res = False
+                for x in items:
+                    if isinstance(x, (int, Fr)) and not isinstance(x, bool):
+                        x = C(x)
+                    if isinstance(x, Rat) and self.compare('==', a, x, node):
+                        res = True
+                        break
                 return res if op == 'in' else not res
             raise Unsupported('membership test of symbolic value')
         if isinstance(a, (int, Fr)):
@@ -1140,10 +1151,17 @@ class Frame:
                 else:
                     dv.d[dv.nkey(self.ev(k))] = self.ev(v)
             return dv
+        if isinstance(n, ast.NamedExpr):
+            v = self.ev(n.value)
+            self.assign(n.target, v)
+            return v
         if isinstance(n, ast.ListComp):
             return self.listcomp(n)
         if isinstance(n, ast.GeneratorExp):
-            return self.listcomp(n)
+            g_ = self.listcomp(n)
+            if isinstance(g_, ListV):
+                g_.is_generator = True      # may be consumed by next()
+            return g_
         if isinstance(n, ast.DictComp):
             out = DictV()
 
@@ -1375,6 +1393,11 @@ class Frame:
 
     def attribute(self, n):
         I = self.I
+        if isinstance(n.value, ast.Call) and isinstance(n.value.func, ast.Name) and n.value.func.id == 'super' \
+                and not n.value.args and isinstance(self.self_obj, Obj) and self.self_obj.ci is not None:
+            # super().method used as a value (handed to a helper): bound to self, resolved after the current class
+            got = I.repo.find_method(self.self_obj.ci, n.attr, after=self.owner)
+            return FuncRef(got[0].module, got[1], self.self_obj, got[0])
         # dotted global (np.pi, c.Na, module.attr)
         if isinstance(n.value, ast.Name) and n.value.id not in self.env:
             r = I.repo.resolve_expr(self.module, n)
@@ -1397,8 +1420,30 @@ class Frame:
             return _transpose(base)
         if isinstance(base, (str, SegStr)) and n.attr not in dir(str):
             raise _RaisedExc(Raised('AttributeError', n))
+        if isinstance(base, ListV) and getattr(base, 'is_array', False) and n.attr in ('size', 'ndim', 'shape', 'T'):
+            sh = []
+            cur_ = base
+            while isinstance(cur_, ListV):
+                sh.append(len(cur_))
+                cur_ = cur_.items[0] if cur_.items else None
+            if n.attr == 'ndim':
+                return C(len(sh))
+            if n.attr == 'shape':
+                return ListV([C(k_) for k_ in sh])
+            if n.attr == 'size':
+                tot_ = 1
+                for k_ in sh:
+                    tot_ *= k_
+                return C(tot_)
+            if len(sh) == 1:
+                return base
+            tv_ = nd_transpose(base, list(reversed(range(len(sh)))))
+            tv_.view_of = (base, list(reversed(range(len(sh)))))
+            return tv_
         if isinstance(base, (ListV, Elem, Rat, SumV, DictV, str, SegStr, TableRef)):
             return BoundNative(base, n.attr)
+        if isinstance(base, Builtin) and base.name == 'dict' and n.attr == 'fromkeys':
+            return Builtin('dict.fromkeys')
         if isinstance(base, Module):
             r = I.repo.lookup(base, n.attr)
             if r is None:
@@ -1465,6 +1510,8 @@ class Frame:
         if r is None:
             al = self.module.aliases.get(name)
             if al is not None:
+                if al[0] == 'object' and '%s.%s' % (al[1], al[2]) in I.native:
+                    return NativeRef('%s.%s' % (al[1], al[2]))
                 return ExtRef(al)
             raise _RaisedExc(Raised('NameError', n))
         return self.entity(r, n)
@@ -1546,6 +1593,11 @@ class Frame:
         if isinstance(f, ast.Attribute) and isinstance(f.value, ast.Call) \
                 and isinstance(f.value.func, ast.Name) and f.value.func.id == 'super':
             args, kwargs = self.call_args(n)
+            if isinstance(self.self_obj, ClassInfo):
+                # super() inside a classmethod: the next definition after the current class, bound to cls
+                got = I.repo.find_method(self.self_obj, f.attr, after=self.owner)
+                return I.call_function(got[0].module, got[1], args, kwargs, self_obj=self.self_obj, owner=got[0],
+                                       name='%s.%s' % (got[0].qual, f.attr))
             return I.call_method(self.self_obj, f.attr, args, kwargs, after=self.owner)
         fv = self.ev(f)
         args, kwargs = self.call_args(n)
@@ -1676,6 +1728,8 @@ class ZipV:
         return ListV(vals)
 
     def items(self):
+        if getattr(self, '_rest', None) is not None:
+            return self._rest               # partly consumed by next()
         lists = []
         for s in self.seqs:
             if isinstance(s, ListV):
@@ -1874,6 +1928,10 @@ def builtin_call(I, fr, name, args, kwargs, n):
             return v
         if isinstance(v, ZipV):
             return ListV(v.items())
+        if isinstance(v, DictV):
+            return ListV([v.okey(k) for k in v.d.keys()])
+        if isinstance(v, str) and v not in I.sym_strings:
+            return ListV(list(v))
         raise Unsupported('list() of %r' % (v,), n)
     if name == 'type':
         return TypeOf(args[0])
@@ -1933,8 +1991,34 @@ def builtin_call(I, fr, name, args, kwargs, n):
                 tot = I.binop('+', tot, r_)
             return tot
         return I.np_sum(args[0])
+    if name == 'dict.fromkeys':
+        d_ = DictV()
+        for k_ in fr.iter_items(args[0], n):
+            d_.d[d_.nkey(k_)] = args[1] if len(args) > 1 else None
+        return d_
     if name == 'bool':
         return I.truth(args[0], n) if args else False
+    if name == 'iter' and len(args) == 1:
+        it_ = ListV(list(fr.iter_items(args[0], n)))
+        it_.is_iterator = True
+        return it_
+    if name == 'next' and args:
+        it_ = args[0]
+        if isinstance(it_, ListV) and (getattr(it_, 'is_iterator', False) or getattr(it_, 'is_generator', False)):
+            if it_.items:
+                return it_.items.pop(0)
+            if len(args) > 1:
+                return args[1]
+            raise _RaisedExc(Raised('StopIteration', n))
+        if isinstance(it_, ZipV) and not it_.vector:
+            if getattr(it_, '_rest', None) is None:
+                it_._rest = list(it_.items())
+            if it_._rest:
+                return it_._rest.pop(0)
+            if len(args) > 1:
+                return args[1]
+            raise _RaisedExc(Raised('StopIteration', n))
+        raise Unsupported('next() of %r' % (it_,), n)
     if name == 'map' and len(args) == 2:
         seq = args[1]
         if isinstance(seq, Elem):
@@ -2046,6 +2130,8 @@ def bound_native(I, fr, bn, args, kwargs, n):
     b, name = bn.base, bn.name
     if isinstance(b, TableRef):
         return _table_method(I, fr, b, name, args, kwargs, n)
+    if isinstance(b, ListV) and name == 'count' and len(args) == 1:
+        return C(len([x for x in b.items if I.compare('==', x, args[0], n)]))
     if isinstance(b, ListV):
         if name == 'add' and getattr(b, 'is_set', False):
             v = I.plain(args[0])
@@ -2133,6 +2219,12 @@ def bound_native(I, fr, bn, args, kwargs, n):
         if name == 'update':
             if args and isinstance(args[0], DictV):
                 b.d.update(args[0].d)
+                b.keyobj.update(args[0].keyobj)
+            elif args:
+                for p_ in fr.iter_items(args[0], n):
+                    if not (isinstance(p_, ListV) and len(p_) == 2):
+                        raise Unsupported('dict.update with %r' % (p_,), n)
+                    b.d[b.nkey(p_.items[0])] = p_.items[1]
             b.d.update(kwargs)
             return None
         if name == 'setdefault':
@@ -3133,6 +3225,70 @@ def _np_searchsorted(I, fr, args, kwargs, n):
     return C(k)
 
 
+def _operator(op):
+    def h(I, fr, args, kwargs, n):
+        if len(args) != 2:
+            raise Unsupported('operator with %d arguments' % len(args), n)
+        return I.binop(op, args[0], args[1])
+    return h
+
+
+def _operator_neg(I, fr, args, kwargs, n):
+    return I.neg(args[0])
+
+
+def _functools_reduce(I, fr, args, kwargs, n):
+    f_, seq = args[0], args[1]
+    items = fr.iter_items(_vec_norm(seq) if not isinstance(seq, Elem) else seq, n) if not isinstance(seq, Elem) \
+        else None
+    if items is None:
+        raise Unsupported('reduce over a vector of unknown length', n)
+    if len(args) > 2:
+        acc = args[2]
+    elif items:
+        acc, items = items[0], items[1:]
+    else:
+        raise _RaisedExc(Raised('TypeError', n))
+    for x in items:
+        acc = fr.apply(f_, [acc, x], {}, n)
+    return acc
+
+
+def _itertools_product(I, fr, args, kwargs, n):
+    import itertools as _it
+    seqs = [fr.iter_items(a, n) for a in args]
+    return ListV([ListV(list(t)) for t in _it.product(*seqs)])
+
+
+def _itertools_chain(I, fr, args, kwargs, n):
+    out = []
+    for a in args:
+        out.extend(fr.iter_items(a, n))
+    return ListV(out)
+
+
+def _re_compile(I, fr, args, kwargs, n):
+    pat = args[0]
+    if not isinstance(pat, str) or pat in I.sym_strings:
+        raise Unsupported('regular expression is not a literal', n)
+    o = Obj('pattern', closed=True)
+    o.attrs['pattern'] = pat
+    for kind in ('search', 'match', 'fullmatch', 'findall', 'finditer', 'split', 'sub'):
+        def meth(I_, ob, a, k, kind=kind):
+            return _re_generic(kind)(I_, fr, [pat] + list(a), k, n)
+        o.opaque_methods[kind] = meth
+    return o
+
+
+def _np_flatnonzero(I, fr, args, kwargs, n):
+    v = args[0]
+    if isinstance(v, ListV) and all(isinstance(x, bool) for x in v.items):
+        r = ListV([C(i) for i, x in enumerate(v.items) if x])
+        r.is_array = True
+        return r
+    raise Unsupported('np.flatnonzero operand', n)
+
+
 def _np_full(I, fr, args, kwargs, n):
     shape = _arg(args, kwargs, 0, 'shape')
     fill = _arg(args, kwargs, 1, 'fill_value')
@@ -3233,6 +3389,14 @@ NATIVE = {
     'numpy.atleast_1d': _np_atleast_1d,
     'numpy.full_like': _np_full_like,
     'numpy.full': _np_full,
+    'numpy.negative': _operator_neg,
+    'numpy.flatnonzero': _np_flatnonzero,
+    'operator.add': _operator('+'), 'operator.sub': _operator('-'), 'operator.mul': _operator('*'),
+    'operator.truediv': _operator('/'), 'operator.pow': _operator('**'), 'operator.neg': _operator_neg,
+    'functools.reduce': _functools_reduce,
+    'itertools.product': _itertools_product,
+    'itertools.chain': _itertools_chain,
+    're.compile': _re_compile,
     'numpy.searchsorted': _np_searchsorted,
     'scipy.integrate.quad': _quad,
 }
